@@ -26,6 +26,8 @@ OPTSETS = [
     ["transport=grpc", "autogen-snippets=false"], ["python-gapic-name=renamed"],
     ["python-gapic-namespace=alt.space", "python-gapic-name=other_name"], ["python-gapic-namespace=solo"],
     ["warehouse-package-name=custom-dist", "transport=rest", "rest-numeric-enums"],
+    # bare flags (the spelling build rules use): their value must not depend on what precedes them
+    ["autogen-snippets"], ["metadata", "autogen-snippets", "transport=grpc"], ["transport=grpc+rest", "rest-numeric-enums", "autogen-snippets"],
 ]
 NOISE = [
     ["foo"], ["foo=bar"], ["go-gapic-package=cloud.google.com/go/x/apiv1;x"], ["python-gapic-unknown-flag=1"],
